@@ -85,7 +85,8 @@ def ctor_sub(chk, rng, w, wid, sym, plan=None):
              {"k": "pu", "e": ["c", typed(sym), [V("s"), U(other)]]},
              {"k": "cv", "e": M(["c", typed(sym), [V("s")]], "convert",
                                 U(other))},
-             {"k": "tu", "e": U(sym)}]
+             {"k": "tu", "e": U(sym)},
+             {"k": "bare", "e": ["c", typed(sym), [["s", "12.5"]]]}]
     info = dict(world=wid, sym=sym, kind=kind, via=via, x=str(x), other=other)
 
     def judge(obs):
@@ -132,6 +133,20 @@ def ctor_sub(chk, rng, w, wid, sym, plan=None):
                 bad.append("re-parsing str(q) through the %s gives %s, not "
                            "%s" % ("generic factory" if key == "p1" else
                                    "type", brief(p), brief(q)))
+        bare = obs.get("bare", {})
+        tref = w.types[w.units[sym].tname].ref
+        if tref is not None:
+            wantb = F(25, 2)
+            qb = w.quantum_of(tref)
+            if qb is not None:
+                wantb = RM.round_to(wantb, qb, RM.DEFAULT_MODE)
+            if bare.get("k") != "Q" or bare["u"] != tref or \
+                    val(bare) != wantb or bare["t"] != w.units[sym].tname:
+                bad.append("T('12.5') gives %s, expected 12.5 %s" %
+                           (brief(bare), tref))
+        elif not is_exc(bare, "QuantityError"):
+            bad.append("T('12.5') in a type without reference unit gives %s"
+                       % brief(bare))
         pu, cv = obs.get("pu", {}), obs.get("cv", {})
         if pu.get("k") != "Q" or cv.get("k") != "Q" or \
                 val(pu) != val(cv) or pu["u"] != cv["u"] or \
